@@ -516,3 +516,11 @@ func edgeCond(s *symb, p, b *ssa.BasicBlock) string {
 	}
 	return ""
 }
+
+// lastInstr returns the terminator of b (nil for an empty block).
+func lastInstr(b *ssa.BasicBlock) ssa.Instruction {
+	if len(b.Instrs) == 0 {
+		return nil
+	}
+	return b.Instrs[len(b.Instrs)-1]
+}
